@@ -121,7 +121,8 @@ REGISTRY = {
         "level": "exploration",
         "tiers": {
             "quick": {"workers": 8, "enum_len": 8, "n_gen": 1600},
-            "thorough": {"workers": 16, "enum_len": 11, "n_gen": 400000},
+            "thorough": {"workers": 16, "enum_len": 11, "enum2_len": 8,
+                         "n_gen": 400000},
         },
     },
 }
